@@ -487,6 +487,15 @@ type vrLogger struct{ s *vrState }
 func (l vrLogger) Info(m string)  { l.s.emit("Log", []interface{}{"info", m}, nil) }
 func (l vrLogger) Error(m string) { l.s.emit("Log", []interface{}{"error", m}, nil) }
 
+type vrLocalizer struct{ s *vrState }
+
+func (l vrLocalizer) Localizef(ctx context.Context, key %ABQ%LocalizationKey, args ...interface{}) string {
+	c := l.s.pop("Localize")
+	txt, _ := c["text"].(string)
+	l.s.emit("Localize", []interface{}{key.ID}, []interface{}{txt})
+	return txt
+}
+
 type vrMailer struct{ s *vrState }
 
 func (m vrMailer) Send(ctx context.Context, e %ABQ%Email) error {
